@@ -1,11 +1,11 @@
 SPEC = dict(
     props_file="C12",
     legs=[dict(family="countmin", oracles=["prop_layout"], profiles=["debug"], n_quick=120, n_thorough=1200)],
-    level_text="Theorems (Props/C12.v): for every well-formed state the bytes emitted by the modelled writer are decoded by an "
+    level_text="Theorems (Props/C12.v and its parts Props/C12_<family>.v): for every well-formed state the bytes emitted by the modelled writer are decoded by an "
                "independent layout decoder (Spec/*Layout.v, constants written as literals from the format description) to exactly the "
                "abstract state; the constants translated from the Rust source equal the specification's. Tie: the spec decoder is run on "
                "the crate's real serialize() output and compared with the exact abstract state the Spec computes from the history.",
-    level_note="Trusted: my reading of the DataSketches Java/C++ formats (DESIGN.md Appendix A). Families covered so far are listed in Props/C12.v.",
+    level_note="Trusted: my reading of the DataSketches Java/C++ formats (DESIGN.md Appendix A). The base file holds the Count-Min statements; the other families are parts (covered / NOT covered families are listed at the end of this note).",
     technique="Coq conformance theorem writer-vs-layout-spec + spec decoder run on crate output",
     trusted=["format specification = my reading of the published Java/C++ layouts (no upstream files available offline)"],
     assumptions=[],
